@@ -30,7 +30,7 @@ struct Obj<G: AffineRepr> {
     m: Mirror<G>,
 }
 
-fn run_case<G: AffineRepr>(env: &Env<G>, c: &Case) -> CaseOut {
+fn run_case<G: AffineRepr + crate::checks::c06::RefTwin>(env: &Env<G>, c: &Case) -> CaseOut {
     let mut o = CaseOut::new();
     o.evals = 0;
     let prog = gen_program(c.seed, &c.cfg);
@@ -167,6 +167,28 @@ fn run_case<G: AffineRepr>(env: &Env<G>, c: &Case) -> CaseOut {
         if !j.log_consistent {
             o.inconclusive = Some("replayed transcript bytes differ from logged bytes".into());
         }
+        // the verifier stopped before deriving the challenges although no structural condition fails:
+        // if its transcript so far is a prefix of the reference revision's run on the same object, the
+        // challenges it would have derived are the reference's; judge the relations under those
+        let mut j = j;
+        if j.real.is_err() && matches!(j.refv, RefVerdict::Unknown(_)) {
+            let bytes = ob.m.to_bytes();
+            if let Some(rlog) = G::ref_verifier_log(&ob.prog, &ob.vs, &bytes) {
+                let cur = crate::mon::main_shapes(&j.vo.log);
+                let rf = crate::mon::main_shapes(&rlog);
+                if cur.len() <= rf.len() && cur[..] == rf[..cur.len()] {
+                    let (chals, _) = chals_of::<G>(&rlog, j.vo.st.model.chals.len());
+                    if chals.is_some() {
+                        let g = env.gens();
+                        let rv2 = crate::mon::quiet(|| crate::refv::ref_verify::<G>(&j.vo.st.model, &ob.vs, &ob.m, &g, chals.as_ref()));
+                        if !matches!(rv2, RefVerdict::Unknown(_)) {
+                            o.count("early stop judged under the reference schedule's challenges", 1);
+                            j.refv = rv2;
+                        }
+                    }
+                }
+            }
+        }
         let rv = match &j.refv {
             RefVerdict::Accept => "accept".to_string(),
             RefVerdict::Reject(w) => format!("reject {}", w),
@@ -230,7 +252,7 @@ fn cases(ctx: &Ctx, curve: &str) -> Vec<Case> {
     v
 }
 
-fn run_curve<G: AffineRepr>(ctx: &Ctx, curve: &'static str, only: Option<&Case>) -> Agg {
+fn run_curve<G: AffineRepr + crate::checks::c06::RefTwin>(ctx: &Ctx, curve: &'static str, only: Option<&Case>) -> Agg {
     let env = Env::<G>::new(curve, 256);
     let cs = match only {
         Some(c) => vec![c.clone()],
